@@ -213,6 +213,7 @@ Proof.
   unfold range_p. pose proof (space0_len s) as L0. set (s' := space0 s) in *.
   assert (T : exists bs r, simples_p s' = Some (bs, r) /\ length r <= length s).
   { destruct (simples_p_total s') as (bs & r & E & L). exists bs, r. split; [exact E|lia]. }
+  destruct (at_empty_alt s'); [eexists _, s'; split; [reflexivity|lia]|].
   destruct (hyphen_p s') as [[b r]|] eqn:E; [|exact T].
   destruct (at_alt_end r); [|exact T]. apply hyphen_p_len in E. eexists _, r. split; [reflexivity|lia].
 Qed.
